@@ -42,6 +42,9 @@ class StepLoop(vloop.VLoop):
         super().__init__()
         self.manual = False
         self.parked = []
+        # a user listener that raises is part of the histories: the loop contains the exception
+        # (asyncio would log it; keep the output clean)
+        self.set_exception_handler(lambda loop, context: None)
 
     def call_soon(self, callback, *args, context=None):
         if self.manual and str(getattr(callback, "__module__", "")).startswith("pyatv"):
@@ -90,6 +93,14 @@ async def drive(loop, cfg, ops, manual):
 
     got = []
     rank_of = {}
+    faults = set(cfg.get("faults", ()))
+
+    def heard(call):
+        """Record one notification; the user's listener raises if the history says so."""
+        got.append(call)
+        if len(got) - 1 in faults:
+            raise RuntimeError("user listener failed on notification %d" % (len(got) - 1))
+
 
     class Meta:
         """Stands in for MrpMetadata: playing() returns the next status or raises."""
@@ -161,10 +172,10 @@ async def drive(loop, cfg, ops, manual):
 
     class Push(interface.PushListener):
         def playstatus_update(self, updater, playstatus):
-            got.append(["DPlay", rank_of[id(updater)], status_index(playstatus)])
+            heard(["DPlay", rank_of[id(updater)], status_index(playstatus)])
 
         def playstatus_error(self, updater, exception):
-            got.append(["DErr", rank_of[id(updater)]])
+            heard(["DErr", rank_of[id(updater)]])
 
     FOCUS = [KeyboardFocusState.Unknown, KeyboardFocusState.Unfocused, KeyboardFocusState.Focused]
     DEVS = DEV_VALUES
@@ -185,15 +196,15 @@ async def drive(loop, cfg, ops, manual):
 
     class AudL(interface.AudioListener):
         def volume_update(self, old_level, new_level):
-            got.append(["DVol", VOL_CANON[VOLS.index(old_level)], VOL_CANON[VOLS.index(new_level)]])   # index() compares with ==
+            heard(["DVol", VOL_CANON[VOLS.index(old_level)], VOL_CANON[VOLS.index(new_level)]])   # index() compares with ==
 
         def outputdevices_update(self, old_devices, new_devices):
             k = lambda ds: DEVS.index([(d.name, d.identifier) for d in ds])
-            got.append(["DDev", k(old_devices), k(new_devices)])
+            heard(["DDev", k(old_devices), k(new_devices)])
 
     class Key(interface.KeyboardListener):
         def focusstate_update(self, old_state, new_state):
-            got.append(["DFocus", FOCUS.index(old_state), FOCUS.index(new_state)])
+            heard(["DFocus", FOCUS.index(old_state), FOCUS.index(new_state)])
 
     core = MessageDispatcher()
     config = conf.AppleTV("127.0.0.1", "verif")
@@ -433,10 +444,11 @@ def oracle(cfg, ops, outs):
 # ------------------------------------------------------------------ Coq terms
 
 def c_cfg(cfg):
-    return "{| regs := %s; kregs := %s; sraise := %s; aregs := %s |}" % (
+    return "{| regs := %s; kregs := %s; sraise := %s; aregs := %s; lfault := %s |}" % (
         common.clist([e[0] for e in cfg["protos"] if e[1]]), common.clist([e[0] for e in cfg["protos"] if e[2]]),
         common.clist([e[0] for e in cfg["protos"] if len(e) > 3 and e[3]]),
-        common.clist([e[0] for e in cfg["protos"] if len(e) > 4 and e[4]]))
+        common.clist([e[0] for e in cfg["protos"] if len(e) > 4 and e[4]]),
+        common.clist(sorted(cfg.get("faults", ()))))
 
 
 def c_op(op):
@@ -476,7 +488,10 @@ def rand_cfg(rng):
     protos = [[r, rng.random() < 0.8, rng.random() < 0.6, rng.random() < 0.15, rng.random() < 0.6] for r in ranks]
     if not any(p[1] for p in protos):
         protos[0][1] = True
-    return {"protos": protos}
+    cfg = {"protos": protos}
+    if rng.random() < 0.4:      # the user's listeners raise on some of the first notifications
+        cfg["faults"] = sorted(rng.sample(range(6), rng.randint(1, 3)))
+    return cfg
 
 
 def rand_ops(rng, cfg, length, manual):
@@ -539,7 +554,7 @@ def run(ctx):
                 "(through the real FacadeAudio to a protocol Audio that applies and announces the level as RAOP/MRP/Companion do), run-all} - volumes include -0.0 and int 10 (equal to 0.0 / 10.0), device lists "
                 "agree on the identifier and differ in the name (renamed, unnamed); (b'') start followed by every sequence of length <= %d ending in "
                 "run-all over {error(hi), error(lo), post(hi), start, stop, close, takeover(lo), release, run-all} on both loops; "
-                "(b3) every ordered pair (a, b) of the 5 play statuses / 5 volumes / 5 device lists / 3 focus states reported as a, b, a and drained; "
+                "(b3) every ordered pair (a, b) of the 5 play statuses / 5 volumes / 5 device lists / 3 focus states reported as a, b, a and drained (and as a | a, b | a), each also with user listeners that raise on the first / on the first three notifications; "
                 "(c) %d random sequences of length 4..16 over the full alphabet (post/error by any protocol (real MrpPushUpdater.state_updated) with 5 statuses differing in one field each, start, stop, "
                 "close, takeover/release of push and/or keyboard by any protocol, volume/output-device/focus dispatch (8/5/3 values), user set_volume/volume_up/volume_down, "
                 "run-one (stepped loop only), run-all), random configuration, half on each loop.  distinct = (configuration, loop mode, sequence); "
@@ -588,6 +603,8 @@ def run(ctx):
             if seq[-1][0] != "RunAll":
                 continue            # same observations as the sequence without its unobserved tail
             one(cfg, list(seq), bool(length % 2), "exhaustive-comparers-len%d" % length)
+            if length < maxlen:      # the same with user listeners that raise on the first two notifications
+                one(dict(cfg, faults=[0, 1]), list(seq), bool(length % 2), "exhaustive-comparers-len%d" % length)
     # (b'') the error path: a protocol's updater reports an error (real MrpPushUpdater.state_updated ->
     # loop.call_soon(listener.playstatus_error, ...)) around start / stop / close / takeover
     cfg = EXH_CFGS[1]
@@ -604,13 +621,18 @@ def run(ctx):
     # by the active protocol in the steady regime - the listener must be called iff the two differ in any field
     cfg = EXH_CFGS[0]
     r0 = cfg["protos"][0][0]
-    for a in range(NSTATUS):
-        for b in range(NSTATUS):
-            one(cfg, [["Start"], ["Post", r0, a], ["Post", r0, b], ["Post", r0, a], ["RunAll"]], bool((a + b) % 2), "value-pairs")
-    for kind, dom in (("Vol", VOL_PICK), ("Dev", range(len(DEV_VALUES))), ("Focus", range(3))):
-        for a in dom:
-            for b in dom:
-                one(cfg, [[kind, r0, a], [kind, r0, b], [kind, r0, a], ["RunAll"]], bool((a + b) % 2), "value-pairs")
+    # ... each also with a user listener that raises on its first / on every notification: a delivery that
+    # raised was still a delivery (the next old value is the one the listener was told)
+    for plan in ([], [0], [0, 1, 2]):
+        cfgp = dict(cfg, faults=plan) if plan else cfg
+        for a in range(NSTATUS):
+            for b in range(NSTATUS):
+                one(cfgp, [["Start"], ["Post", r0, a], ["Post", r0, b], ["Post", r0, a], ["RunAll"]], bool((a + b) % 2), "value-pairs")
+        for kind, dom in (("Vol", VOL_PICK), ("Dev", range(len(DEV_VALUES))), ("Focus", range(3))):
+            for a in dom:
+                for b in dom:
+                    one(cfgp, [[kind, r0, a], [kind, r0, b], [kind, r0, a], ["RunAll"]], bool((a + b) % 2), "value-pairs")
+                    one(cfgp, [[kind, r0, a], ["RunAll"], [kind, r0, a], [kind, r0, b], ["RunAll"], [kind, r0, a], ["RunAll"]], bool((a + b) % 2), "value-pairs")
     ctx.exhaustive = True
     for i in range(nrand):
         cfg = rand_cfg(ctx.rng)
@@ -651,7 +673,7 @@ def run(ctx):
     ctx.assumptions += [
         "asyncio runs call_soon call-backs in FIFO order (exercised in asyncio mode, assumed in the model)",
         "play statuses are compared by value (interface.Playing.__eq__); volumes are ordinary floats (no NaN: excluded by the C20 guard)",
-        "user listeners are alive, do not raise and do not call back into the facade from inside a notification",
+        "user listeners are alive and do not call back into the facade from inside a notification (they may raise: cfg.faults)",
         "priority order MRP > DMAP > Companion > AirPlay > RAOP (property C01); takeover tokens are released at most once (C01 side condition)",
     ]
 
